@@ -30,7 +30,93 @@ func runC10(c *Ctx) {
 	c10Codecs(c)
 	c10Encoder(c)
 	c10Decoder(c)
+	c10Defaults(c)
+	c10Special(c) // last: a decoder that keeps what an altering stream installed spoils everything after it
 }
+
+// c10Defaults: the codec's own GetDefaultParameters() objects as call arguments (special.go).
+func c10Defaults(c *Ctx) {
+	rng := c.Rng.Fork()
+	for _, ts := range AllTS() {
+		reg, err := Registry(ts)
+		if err != nil {
+			continue
+		}
+		c.R.Case("c10:defaults:"+ts.Short, true, "c10.defaults")
+		c.R.Oracle("c10_default_parameters")
+		for _, p := range DefaultsCheck(ts, reg, ts.Fresh(), rng) {
+			c.R.Fail("oracle", "c10_default_parameters", "c10:"+ts.Short+":"+p.Sig, p.What, map[string]interface{}{"ts": ts.Short})
+		}
+	}
+}
+
+// c10Special: ordinary streams decoded alone, then after (and in one call with) table-altering
+// streams on the same registry codec: the ordinary results must not change.
+func c10Special(c *Ctx) {
+	rng := c.Rng.Fork()
+	groups := SpecialGroups(rng)
+	type solo struct {
+		class string
+		out   [][]byte
+	}
+	regs := make([]codecOf, len(groups))
+	solos := make([][]solo, len(groups))
+	// phase 1: every ordinary stream alone, before any altering stream has been seen by any decoder
+	for gi, g := range groups {
+		reg, err := Registry(g.TS)
+		if err != nil {
+			continue
+		}
+		regs[gi] = codecOf{reg}
+		for _, o := range g.Ordinary {
+			cl, out := DecodeSolo(reg, g.G, o.Data)
+			solos[gi] = append(solos[gi], solo{cl, out})
+		}
+	}
+	// phase 2
+	for gi, g := range groups {
+		if regs[gi].c == nil {
+			continue
+		}
+		reg := regs[gi].c
+		for _, x := range g.Altering {
+			xc1, xo1 := DecodeSolo(reg, g.G, x.Data)
+			for oi, o := range g.Ordinary {
+				key := fmt.Sprintf("c10:special:%s:%s:%s:%s", g.TS.Short, g.G, x.Name, o.Name)
+				c.R.Case(key, true, "c10.special."+g.TS.Short, "c10.special.kind."+x.Name)
+				c.R.Oracle("c10_table_altering")
+				info := map[string]interface{}{"ts": g.TS.Short, "geometry": g.G.String(), "altering": x.Name, "altering_stream": Hex(x.Data), "ordinary": o.Name, "ordinary_stream": Hex(o.Data)}
+				cl, out := DecodeSolo(reg, g.G, o.Data)
+				if cl != solos[gi][oi].class || !EqualFrames(out, solos[gi][oi].out) {
+					c.R.Fail("oracle", "c10_table_altering", "c10:"+g.TS.Short+":history:table-altering:"+x.Name,
+						fmt.Sprintf("ordinary stream %q decodes differently (%s) after the stream %q than alone (%s)", o.Name, cl, x.Name, solos[gi][oi].class), info)
+				}
+				// one call, three frames: ordinary, altering, ordinary
+				multi, err := Decode(reg, g.G, [][]byte{append([]byte(nil), o.Data...), append([]byte(nil), x.Data...), append([]byte(nil), o.Data...)}, nil)
+				if solos[gi][oi].class == "ok" {
+					for _, k := range []int{0, 2} {
+						if k < len(multi) && !bytes.Equal(multi[k], solos[gi][oi].out[0]) {
+							c.R.Fail("oracle", "c10_table_altering", "c10:"+g.TS.Short+":frame-independence:table-altering:"+x.Name,
+								fmt.Sprintf("frame %d (ordinary %q) of a 3-frame Decode with the stream %q in the middle differs from the frame decoded alone", k, o.Name, x.Name), info)
+							break
+						}
+					}
+					if err == nil && len(multi) != 3 {
+						c.R.Fail("oracle", "c10_count_order", "c10:"+g.TS.Short+":decode-frame-count", "3 encoded frames, other number decoded", info)
+					}
+				}
+			}
+			// the altering stream itself is deterministic too
+			xc2, xo2 := DecodeSolo(reg, g.G, x.Data)
+			if xc1 != xc2 || !EqualFrames(xo1, xo2) {
+				c.R.Fail("oracle", "c10_repeat", "c10:"+g.TS.Short+":nondeterministic:table-altering:"+x.Name, "the same stream decodes differently the second time",
+					map[string]interface{}{"ts": g.TS.Short, "stream": Hex(x.Data)})
+			}
+		}
+	}
+}
+
+type codecOf struct{ c codec.Codec }
 
 // ---------------------------------------------------------------------------------------
 // registry codecs: one output per input, in order, frame i from frame i only, inputs untouched,
@@ -662,5 +748,3 @@ func shortClass(s string) string {
 	}
 	return "plain"
 }
-
-var _ codec.Parameters // keep the import for documentation of the parameter modes
